@@ -134,6 +134,6 @@ pub fn run(ctx: &mut Ctx) {
     let t = table();
     let step = ctx.by_tier(5, 1);
     for i in (0..t.len()).step_by(step) { if t[i].1 <= ctx.by_tier(10, 11) { ctx.case("table", i as u64, |c, _| table_case(c, i)) } }
-    let n = ctx.by_tier(300u64, 20_000);
+    let n = ctx.by_tier(300u64, 80_000);
     ctx.random_cases("random", n, |c, r| random_case(c, r));
 }
